@@ -494,6 +494,9 @@ func c09(args []string) int {
 	log.DefaultLogger.SetLogLevel(log.FATAL)
 	log.Proxy.SetLogLevel(log.FATAL)
 	registerProtocols()
+	if len(os.Getenv("VH_MX_PROBE")) > 0 {
+		return mxProbe()
+	}
 	if len(os.Getenv("VH_POOL_PROBE")) > 0 {
 		return c09probe(run)
 	}
